@@ -27,7 +27,7 @@ vars == <<l, st, g, hits, failing>>
 Init == /\ l = 1
         /\ Tr[1].kind = "Reset"
         /\ st = Tr[1].state
-        /\ g = GhostInit(Tr[1].state)
+        /\ g = GhostStart(Tr[1].state)
         /\ hits = {}
         /\ failing = {}
 
@@ -41,8 +41,8 @@ Next ==
   /\ LET line == Tr[l + 1] IN
      IF line.kind = "Reset"
        THEN /\ st' = line.state
-            /\ g' = GhostInit(line.state)
-            /\ LET cs == InvChecks(line.state, GhostInit(line.state)) IN
+            /\ g' = GhostStart(line.state)
+            /\ LET cs == AllInvChecks(line.state, GhostStart(line.state)) IN
                  /\ Report(l + 1, line, cs)
                  /\ failing' = {<<c.name, c.info>> : c \in {c \in cs : ~c.ok}}
                  /\ hits' = hits
@@ -53,7 +53,7 @@ Next ==
                  /\ hits' = hits \cup {<<line.ev.name, c.name>> : c \in cs}
      ELSE /\ st' = line.state
           /\ g' = GhostNext(line.kind, line.ev, st, line.state, g)
-          /\ LET ics == InvChecks(line.state, g')
+          /\ LET ics == AllInvChecks(line.state, g')
                  cs == StepChecks(line.kind, line.ev, st, line.state, g) \cup ics IN
                /\ Report(l + 1, line, cs)
                /\ failing' = {<<c.name, c.info>> : c \in {c \in ics : ~c.ok}}
